@@ -44,6 +44,27 @@ Definition c10_legal (g : ghost) (cl : call) (o : outcome) : bool :=
       end
   end.
 
+(* What must succeed: a transfer or burn of an existing token that names its current owner and carries
+   that owner's authorisation goes through (the receiver's balance not being at the u32 limit) - tokens
+   do not get stuck because an index entry, a marker or a counter went missing. *)
+Definition c10_live (fl : flavour) (c : cfg) (g : ghost) (cl : call) (o : outcome) : bool :=
+  match cl with
+  | Transfer auths from to id =>
+      if has_auth auths from && oaddr_eqb (rget (g_own g) id) (Some from) && (cnt (g_cnt g) to + 1 <=? MAXU32N)
+      then is_ok o else true
+  | Burn auths from id =>
+      if has_auth auths from && oaddr_eqb (rget (g_own g) id) (Some from) then is_ok o else true
+  | BatchMint to amt =>
+      (* every batch size 1 ..= MAX_TOKENS_IN_BATCH is accepted (ids and balance not at the u32 limit) *)
+      match fl with
+      | FCons =>
+          if (1 <=? amt) && (amt <=? max_batch c) && (g_next g + amt <=? MAXU32N) && (cnt (g_cnt g) to + amt <=? MAXU32N)
+          then is_ok o else true
+      | _ => true
+      end
+  | _ => true
+  end.
+
 (* a list of answers to index queries 0,1,2,...: exactly the first k are Some, pairwise
    distinct, all satisfy p, and the two queries beyond the end fail *)
 Fixpoint split_somes (l : list (option N)) : list N * list (option N) :=
@@ -73,19 +94,19 @@ Definition c10_obs_ok (fl : flavour) (full : bool) (g : ghost) (ob : obs) : bool
       else true)
   && match fl with FEnum => enum_ok full g ob | _ => true end.
 
-Definition c10_step_ok (fl : flavour) (full : bool) (g : ghost) (x : call * outcome * obs) : bool :=
+Definition c10_step_ok (fl : flavour) (c : cfg) (full : bool) (g : ghost) (x : call * outcome * obs) : bool :=
   let '(cl, o, ob) := x in
-  c10_legal g cl o && c10_obs_ok fl full (ghost_step g cl o) ob.
+  c10_legal g cl o && c10_live fl c g cl o && c10_obs_ok fl full (ghost_step g cl o) ob.
 
-Fixpoint mon_from (fl : flavour) (full : bool) (g : ghost) (l : list (call * outcome * obs)) (i : N) : N :=
+Fixpoint mon_from (fl : flavour) (c : cfg) (full : bool) (g : ghost) (l : list (call * outcome * obs)) (i : N) : N :=
   match l with
   | [] => 0
   | x :: r =>
-      if c10_step_ok fl full g x
-      then mon_from fl full (ghost_step g (fst (fst x)) (snd (fst x))) r (N.succ i)
+      if c10_step_ok fl c full g x
+      then mon_from fl c full (ghost_step g (fst (fst x)) (snd (fst x))) r (N.succ i)
       else N.succ i
   end.
-Definition monitor (t : trace) : N := mon_from (t_fl t) (t_full t) (ghost0 (t_now0 t)) (t_steps t) 0.
+Definition monitor (t : trace) : N := mon_from (t_fl t) (t_cfg t) (t_full t) (ghost0 (t_now0 t)) (t_steps t) 0.
 
 Definition check (t : trace) : verdict := (diff t, monitor t, 0).
 Definition check_all (ts : list trace) : list verdict := map check ts.
